@@ -120,6 +120,31 @@ def replay(path):
         return 0
     header, herr = emb.generate_header(ir)
     ns = re.search(r'namespace: "([^"]+)"', rec["emb"]).group(1).strip(":")
+    if "struct" not in rec or rec.get("struct") is None:
+        # text I/O of the module does not compile (or a crash that could not be pinned to a line):
+        # instantiate WriteToString / UpdateFromText of every struct and show the compiler's verdict
+        d = os.path.join(common.scratch(), "replay")
+        os.makedirs(d, exist_ok=True)
+        with open(os.path.join(d, "m.emb.h"), "w") as f:
+            f.write(header)
+        body = []
+        for t in emb.ir_to_dict(ir)["module"][0]["type"]:
+            if "structure" not in t or t.get("addressable_unit") not in ("BYTE", 8):
+                continue
+            casts = c06_corpus.param_kinds(t, ns)
+            if casts is None:
+                continue
+            args = "".join("%s(0), " % c for c in casts)
+            body.append("  { auto v = ::%s::Make%sView(%sstatic_cast<unsigned char *>(nullptr), 0); "
+                        "(void)::emboss::WriteToString(v); (void)::emboss::UpdateFromText(v, std::string(\"{}\")); }"
+                        % (ns, t["name"]["name"]["text"], args))
+        src = (cppbuild.CHECK_PRELUDE + '#include "m.emb.h"\n' + c06_txt.DRIVER_PRELUDE +
+               "int main() {\n" + "\n".join(body) + "\n  return 0;\n}\n")
+        binary, log = cppbuild.compile_one(src, name="replay_inst", extra=["-I" + d])
+        print(rec["emb"])
+        print("text I/O of every struct instantiated:", "compiles" if binary else "DOES NOT COMPILE")
+        print("\n".join(ln for ln in log.split("\n") if "error" in ln)[:3000])
+        return 0
     params = rec.get("parameters") or []
     make = "::%s::Make%sView" % (ns, rec["struct"])
     if params:
